@@ -141,3 +141,64 @@ def text_chunk(items, extra):
         ev = offer(text, offset)
         out.append({"events": [ev], "texts": [text]})
     return out
+
+
+# ------------------------------------------------------------------ verify() inside a section (whole-file numbering)
+PROLOGUES = ["x = 1\n", "x = 1\n\n\n", "x = 1\n# page one\x0cpage two\n", "s = 'a\x0bb'\nt = 2\n", "x = 1\r\ny = 2\r\n",
+             "# \x1c \x1d \x1e\n", "#   and   and \x85\nz = 0\n", "u = '''a\nb'''\n", "", "x = 1\ry = 2\n"]
+SECTION_BODIES = ["y = (\n", "def f(:\n    pass\n", "a = 5\nb = = 6\n", "if True:\nx = 1\n", "ok = 1\nprint(ok)\n"]
+
+
+def section_chunk(items, extra):
+    """items: (prologue index, body index, which section holds the body: 1 or 2).  The text is split by the Source
+    tool (independent sections), the walk goes to that section and verify() is called there.  The event carries the
+    parser's verdict on the SECTION text and the offset that makes its line the whole-file line CPython reports."""
+    from engine.core import setup_repo_path
+    setup_repo_path()
+    from pedal.core.report import MAIN_REPORT as R
+    from pedal.core.commands import clear_report, contextualize_report
+    from pedal.source import separate_into_sections, next_section, verify
+    out = []
+    for pi, bi, k in items:
+        pro, body = PROLOGUES[pi], SECTION_BODIES[bi]
+        filler = "w = 0\n" if k == 2 else ""
+        whole = pro + "##### Part 1\n" + (filler + "##### Part 2\n" if k == 2 else "") + body
+        cls, line = classify(body)
+        wcls, wline = classify(whole)
+        # CPython's own line count of what precedes the section body
+        before = whole[:len(whole) - len(body)]
+        try:
+            true_offset = len(ast.parse(before + "pass\n").body) and (ast.parse(before + "pass\n").body[-1].lineno - 1)
+        except SyntaxError:
+            continue
+        clear_report()
+        contextualize_report(whole)
+        ev = {"cls": cls, "line": line, "offset": true_offset, "raised": False, "nsyntax": 0, "fbline": 0, "blankfb": False,
+              "tree_ok": False, "sectioned": True}
+        try:
+            separate_into_sections(independent=True, report=R)
+            for _ in range(k):
+                next_section(report=R)
+            before_ids = {id(f) for f in R.feedback}
+            verify(report=R)
+        except Exception as e:
+            ev["raised"] = True
+            ev["error"] = "%s: %s" % (type(e).__name__, e)
+            out.append({"events": [ev], "texts": [whole]})
+            continue
+        # the section text the tools see starts with the remainder of the marker line ("\n")
+        new = [f for f in R.feedback if id(f) not in before_ids]
+        syn = [f for f in new if f.label in ("syntax_error", "indentation_error")]
+        ev["nsyntax"] = len(syn)
+        if syn and syn[0].location is not None and syn[0].location.line is not None:
+            ev["fbline"] = syn[0].location.line
+        ev["blankfb"] = any(f.label == "blank_source" for f in new)
+        if cls in ("ok", "blank"):
+            try:
+                ev["tree_ok"] = ast.dump(R["source"]["ast"]) == ast.dump(ast.parse(R.submission.main_code))
+            except Exception:
+                ev["tree_ok"] = False
+        if cls not in ("ok", "blank") and wcls == cls and wline and line and wline - line != true_offset:
+            ev["environment_mismatch"] = "whole-file line %d, section line %d, computed offset %d" % (wline, line, true_offset)
+        out.append({"events": [ev], "texts": [whole]})
+    return out
